@@ -188,6 +188,7 @@ static void viol (const char *prop, const char *sig)
 {
 	g_viol_in_run++;
 	if (G.codec == 5 && strcmp (prop, "MACHINERY")) prop = "C16";	/* every clause about the 2D codec belongs to C16 */
+	if (strstr (g_case, " ops=P")) { char s2[240]; snprintf (s2, sizeof s2, "%s|after-an-earlier-session", sig); vf_viol (prop, s2, "%s", g_case); return; }	/* own signature: these reproduce alone, cases that depend on what the worker ran before do not */
 	vf_viol (prop, sig, "%s", g_case);
 }
 
@@ -280,6 +281,18 @@ static int world_open (world_t *w)
 	if (G.codec == 3) {
 		bool isnull = false;
 		if (VF_LIB (of_get_control_parameter (w->ses, OF_CRTL_LDPC_STAIRCASE_IS_LAST_SYMBOL_NULL, &isnull, sizeof isnull)) == OF_STATUS_OK) w->null_last = isnull ? 1 : 0;
+		if (w->null_last && Href) {
+			/* a decoder that takes the last repair symbol for null treats a symbol it never received as known: sound only if that
+			 * symbol is zero for every block, i.e. every source column of the reference matrix has even weight (summing all
+			 * equations cancels the staircase). The model keeps following the session's claim; a false claim is reported here. */
+			static int ck = -1, cr, cn1, cseed, truly;
+			if (ck != G.k || cr != G.r || cn1 != G.N1 || cseed != G.seed) {
+				int row, col; truly = 1;
+				for (col = 0; col < G.k && truly; col++) { int wgt = 0; for (row = 0; row < G.r; row++) wgt += bm_get (Href, row, col); if (wgt & 1) truly = 0; }
+				ck = G.k; cr = G.r; cn1 = G.N1; cseed = G.seed;
+			}
+			if (!truly) viol (PROP, "codec=ldpc|call=set_fec_parameters|kind=last-repair-symbol-assumed-null-though-the-code-does-not-make-it-null");
+		}
 	}
 	if (G.cbmode == 4) {
 		/* only the decoded-REPAIR-symbol callback, which "is not expected to return any data buffer" (returns NULL) */
@@ -1304,6 +1317,9 @@ static void build_large (int thorough, const char *which)
 			step = n > 1000 ? n / 7 : 29;
 			for (a = k; a < n; a += step) { add_scen (c0, "Bw%d+%d,F", a, k + 3); add_scen (c0, "Sw%d+%d,F", a, 2 * k + 1); }
 			add_scen (c0, "Bw%d+%d", n - 6, 6); add_scen (c0, "Aw%d+%d", n - 6, 6);
+			/* the last repair symbol is NOT received (what the decoder assumes about it then matters): the symbols before it, everything but it */
+			add_scen (c0, "Bw%d+%d", n - 7, 6); add_scen (c0, "Aw%d+%d", n - 7, 6); add_scen (c0, "Bw%d+%d,F", n - 2 - k, k + 1); add_scen (c0, "Ba-%d", n - 1); add_scen (c0, "Aa-%d,F", n - 1); add_scen (c0, "Sa-%d,F", n - 1);
+			for (a = 0; a < k; a++) { add_scen (c0, "Ba-%d.%d", a, n - 1); add_scen (c0, "D%d,D%d,D%d", n - 2, a, n - 3); }
 		}
 	}
 	if (strstr (which, "ldpc")) {
